@@ -10,6 +10,7 @@ def dispatch (op : String) (args : List Sx) : String :=
   | "probe" => opProbe args
   | "check" => opCheck args
   | "tcheck" => opTcheck args
+  | "cachekey" => opCacheKey args
   | "ping" => "pong"
   | _ => "bad-op"
 
